@@ -59,6 +59,8 @@ type instCfg struct {
 	// JSON config file (-config); "file+env-password" / "file+env-login" = both in the file, one of them overridden
 	// from the environment (CLOKI_PASSWORD / QRYN_LOGIN) - Login/Pass are always the EFFECTIVE credentials
 	Source string `json:"source,omitempty"`
+	// Knobs: further environment names set to a free port each (see portKnobs)
+	Knobs []string `json:"knobs,omitempty"`
 }
 
 type route struct {
@@ -117,6 +119,9 @@ func classes(login, pass string) []hdrClass {
 		{"password-prefix", basic(login + ":" + pass[:len(pass)-1]), false},
 		{"wrong-user", basic("x" + login + ":" + pass), false},
 		{"base64-trailing-garbage", []string{"Basic " + right + "*!*!"}, true},
+		// empty secrets: what a lookup of an unknown login in a table yields when the miss is not told from a hit
+		{"unknown-user-empty-password", basic("x" + login + ":"), false},
+		{"both-empty", basic(":"), false},
 		// thorough tier
 		{"empty", []string{""}, true},
 		{"bearer-right-b64", []string{"Bearer " + right}, true},
@@ -130,7 +135,6 @@ func classes(login, pass string) []hdrClass {
 		{"user-suffix", basic(login + "x:" + pass), false},
 		{"empty-password", basic(login + ":"), false},
 		{"empty-user", basic(":" + pass), false},
-		{"both-empty", basic(":"), false},
 		{"extra-colon-middle", basic(login + "::" + pass), false},
 		{"extra-colon-end", basic(login + ":" + pass + ":"), false},
 		{"extra-colon-front", basic(":" + login + ":" + pass), false},
@@ -160,7 +164,7 @@ func classes(login, pass string) []hdrClass {
 	return out
 }
 
-const quickClasses = 7
+const quickClasses = 9
 
 // ---------------------------------------------------------------------------------------
 // the rig
@@ -318,6 +322,9 @@ func startOnce(c *run.Ctx, bin string, cfg instCfg) (in *instance, retry bool) {
 		"HOST=127.0.0.1", fmt.Sprintf("PORT=%d", port))
 	if cfg.Cors != "" {
 		env = append(env, "CORS_ALLOW_ORIGIN="+cfg.Cors)
+	}
+	for _, k := range cfg.Knobs {
+		env = append(env, fmt.Sprintf("%s=%d", k, freePort()))
 	}
 	cmd.Env = env
 	lf, _ := os.Create(in.logf)
@@ -582,6 +589,9 @@ func runInstance(c *run.Ctx, bin string, cfg instCfg, flt *filter, st *stats, ro
 	defer in.stop()
 	tag := cfg.Mode + "/" + cfg.Name
 	routeTables[tag] = in.routes
+	if flt == nil {
+		extraListeners(c, in, tag)
+	}
 
 	// the walk list
 	var targets []*target
@@ -1226,6 +1236,12 @@ func configs(c *run.Ctx) []instCfg {
 		instCfg{Mode: "reader", Name: "C", Login: b.Login, Pass: "Rot" + randWord(c, "passC", 6), Source: "file+env-password"},
 		instCfg{Mode: "writer", Name: "D", Login: "dep" + randWord(c, "loginD", 4), Pass: b.Pass, Source: "file+env-login"},
 		instCfg{Mode: "reader", Name: "E", Login: b.Login, Pass: b.Pass, Source: "file", Cors: "*"})
+	// port-valued settings the sources name besides the application and database ports: one instance per mode
+	// with all of them set
+	if ks := portKnobs(); len(ks) > 0 {
+		out = append(out, instCfg{Mode: "writer", Name: "F", Login: b.Login, Pass: b.Pass, Knobs: ks},
+			instCfg{Mode: "reader", Name: "F", Login: b.Login, Pass: b.Pass, Knobs: ks})
+	}
 	return out
 }
 
@@ -1243,7 +1259,7 @@ func Main(c *run.Ctx) {
 
 func runAll(c *run.Ctx, flt *filter) {
 	c.SetRule(rule)
-	c.Assume("the route table walked is the *mux.Router that main() hands to http.Serve (dumped by the verif hook); handlers registered elsewhere are not served by main")
+	c.Assume("the route table walked is the *mux.Router that main() hands to http.Serve (dumped by the verif hook); other listening sockets of the process are read from /proc and probed with the same routes, handlers reachable in no such way are not examined")
 	c.Assume("MODE=all is not run (needs initDB against a catalogue-backed fake); writer and reader route tables are walked separately through the real main()")
 	bin, ok := buildBinary(c)
 	if !ok {
